@@ -456,6 +456,17 @@ def full_client_hello_cases(rng):
                     'fallback_scsv': flags[0], 'empty_renegotiation_info_scsv': flags[1]}}
                 cases.append({'kind': 'observe', 'spec': spec,
                               'observers': [rng.randrange(40), 0] + [rng.randrange(40) for _ in range(rng.randrange(2, 7))]})
+    # names whose label list ends in the (empty) root label - what a caller gets from splitting 'mail.example.com.'
+    # himself: compose() refuses them, and a refused call must leave the object alone like any other
+    name_ref = 'cryptoparser.dnsrec.record:DnsNameUncompressed'
+    for labels in (['mail', 'example', 'com', ''], [''], ['a', '']):
+        for wrap in (None, 'cryptoparser.dnsrec.record:DnsRecordMx'):
+            spec = {'c': name_ref, 'a': [labels]}
+            if wrap:
+                spec = {'c': wrap, 'a': [10, spec]}
+            for _ in range(2):
+                cases.append({'kind': 'observe', 'spec': spec,
+                              'observers': [rng.randrange(40) for _ in range(rng.randrange(3, 8))] + [0, 0]})
     return cases
 
 
